@@ -397,6 +397,15 @@ func runEffect(c *core.Ctx, keepEntry func(*ssa.Function) bool) {
 				// owns (res := causes[:0]; res = append(res, c) filters "in place" the slice an error handed out)
 				if b, ok := x.Call.Value.(*ssa.Builtin); ok && b.Name() == "append" && len(x.Call.Args) >= 1 {
 					s0 := x.Call.Args[0]
+					// a slice handed out by a dynamically dispatched method (SafeDetails(), Unwrap() []error, StackTrace() of
+					// an arbitrary error): its capacity is whatever the implementation left, so the append may write into
+					// a backing array the error owns
+					if iv := invokeRoot(s0, 0); iv != nil && isShared(s0.Type()) {
+						nStores++
+						c.Fail(fmt.Sprintf("%s: append onto the result of %s", load.FnName(fn), iv.Call.Method.Name()), x.Pos(),
+							"append grows, in place, a slice that an interface method ("+iv.Call.Method.Name()+"()) of an arbitrary error handed out ("+load.TypeName(s0.Type())+"): when that slice has spare capacity the append writes into a backing array the error owns, on a path reachable from a read-only operation - concurrent observers race, and observing changes what the error holds", via)
+						return
+					}
 					if sx.IsNil(s0) || fresh(s0, 0) {
 						return
 					}
@@ -577,4 +586,32 @@ func freeVarIsLocalCell(fv *ssa.FreeVar) bool {
 		}
 	})
 	return found && ok
+}
+
+// invokeRoot: v is (a phi / re-append / re-slice over) the result of a dynamically dispatched method call.
+func invokeRoot(v ssa.Value, d int) *ssa.Call {
+	if d > 6 {
+		return nil
+	}
+	switch x := v.(type) {
+	case *ssa.Call:
+		if x.Call.IsInvoke() {
+			return x
+		}
+		if b, ok := x.Call.Value.(*ssa.Builtin); ok && b.Name() == "append" {
+			return invokeRoot(x.Call.Args[0], d+1)
+		}
+	case *ssa.Slice:
+		return invokeRoot(x.X, d+1)
+	case *ssa.Phi:
+		for _, e := range x.Edges {
+			if e == v {
+				continue
+			}
+			if c := invokeRoot(e, d+1); c != nil {
+				return c
+			}
+		}
+	}
+	return nil
 }
